@@ -4,10 +4,10 @@ package main
 
 import (
 	"fmt"
-	"sort"
 	"go/constant"
 	"go/types"
 	"math/big"
+	"sort"
 	"strings"
 )
 
